@@ -284,7 +284,7 @@ func (fc *FuncCtx) callByContract(fr *Frame, st *State, callee *ssa.Function, c 
 		if err != nil {
 			panic(elabErr{fmt.Sprintf("%s:%d: requires of %s at call site %s: %v", c.File, rq.Line, name, fc.p.pos(pos), err)})
 		}
-		fc.addObl(fr, st, "pre", site+":"+rq.Text, t, pos, "precondition of "+name)
+		fc.addSplit(fr, st, "pre", site+":"+rq.Text, t, pos, "precondition of "+name)
 		st.assume(t)
 	}
 	old := st.clone()
@@ -310,6 +310,7 @@ func (fc *FuncCtx) callByContract(fr *Frame, st *State, callee *ssa.Function, c 
 		}
 		before := st.H(fc.p, h)
 		after := Fresh(heapVarName(h)+".call", before.Sort)
+		fc.p.noteHeapVar(after, h, na)
 		st.setH(h, after)
 		st.assume(fc.frameFormula(h, before, after, old.alloc, byHeap[h]))
 	}
@@ -561,6 +562,17 @@ func (fc *FuncCtx) specialExtern(fr *Frame, st *State, callee *ssa.Function, arg
 		return Val{T: Ite(Ge(x, RealLitStr("0")), x, Neg(x))}, true
 	case "math.Inf":
 		unsupp("math.Inf in real float mode")
+	case modulePath + "/io.ExitWithMessage":
+		// terminates the process (os.Exit): never returns. Reaching it is an
+		// obligation failure unless the function under contract is marked allowexit.
+		if fc.contract == nil || !fc.contract.AllowExit {
+			fc.addObl(fr, st, "noexit", "io.ExitWithMessage", False, pos, "io.ExitWithMessage (os.Exit) is unreachable")
+		} else {
+			fc.note("io.ExitWithMessage is reachable in " + funcKey(fc.top) + " (allowexit): ending the process is accepted there")
+		}
+		st.dead = true
+		st.pc = False
+		return Val{}, true
 	case "math/bits.OnesCount8":
 		return Val{T: App("ones8", SInt, args[0].T)}, true
 	}
